@@ -767,7 +767,7 @@ def auto_family(prop, tier, seed, mc_cfgs, gen_runs, directed, extra_rule):
                 nxt = t["events"][k] if k < len(t["events"]) else None
                 trace_mism.append({"what": "recorded-execution-not-a-behaviour-of-the-specification", "props": [prop], "case": t["case"], "step": t["pacing"],
                                    "want": "every hook event and state snapshot explained by an action of spec/CacheAuto.tla",
-                                   "got": {"events_explained": k, "of": len(t["events"]), "first_unexplained_event": nxt},
+                                   "got": {"events_explained": k, "of": len(t["events"]), "first_unexplained_event": nxt, "recorded_trace": t["events"]},
                                    "note": json.dumps(t["events"][max(0, k - 6):k + 1])[:3000], "row": allrows[t["case"]]})
             else:
                 trace_stats["rejected_once_accepted_on_rerecording"] = trace_stats.get("rejected_once_accepted_on_rerecording", 0) + 1
